@@ -714,6 +714,13 @@ class Server(utils.EventEmitter):
         See Bluetooth spec Vol 3, Part F - 3.4.3.3 Find By Type Value Request
         '''
 
+        async def value_matches(attribute: att.Attribute) -> bool:
+            # An attribute that the peer may not read does not match
+            try:
+                return (await attribute.read_value(bearer)) == request.attribute_value
+            except att.ATT_Error:
+                return False
+
         # Build list of returned attributes
         pdu_space_available = bearer.att_mtu - 2
         attributes = []
@@ -724,7 +731,7 @@ class Server(utils.EventEmitter):
             if attribute.handle >= request.starting_handle
             and attribute.handle <= request.ending_handle
             and attribute.type == request.attribute_type
-            and (await attribute.read_value(bearer)) == request.attribute_value
+            and await value_matches(attribute)
             and pdu_space_available >= 4
         ):
             # TODO: check permissions
@@ -1011,9 +1018,16 @@ class Server(utils.EventEmitter):
                 )
                 self.send_response(bearer, response)
                 return
-            # No need to catch permission errors here, since these attributes
-            # must all be world-readable
-            attribute_value = await attribute.read_value(bearer)
+            try:
+                attribute_value = await attribute.read_value(bearer)
+            except att.ATT_Error as error:
+                response = att.ATT_Error_Response(
+                    request_opcode_in_error=request.op_code,
+                    attribute_handle_in_error=handle,
+                    error_code=error.error_code,
+                )
+                self.send_response(bearer, response)
+                return
             # Check the attribute value size
             max_attribute_size = min(bearer.att_mtu - 1, 251)
             if len(attribute_value) > max_attribute_size:
@@ -1053,9 +1067,16 @@ class Server(utils.EventEmitter):
                 )
                 self.send_response(bearer, response)
                 return
-            # No need to catch permission errors here, since these attributes
-            # must all be world-readable
-            attribute_value = await attribute.read_value(bearer)
+            try:
+                attribute_value = await attribute.read_value(bearer)
+            except att.ATT_Error as error:
+                response = att.ATT_Error_Response(
+                    request_opcode_in_error=request.op_code,
+                    attribute_handle_in_error=handle,
+                    error_code=error.error_code,
+                )
+                self.send_response(bearer, response)
+                return
             length = len(attribute_value)
             # Check the attribute value size (the last value is truncated to the
             # space left in the PDU, its length field keeps the full length)
